@@ -31,6 +31,8 @@ type orderRef struct {
 	Counts map[string]map[string]int `json:"counts"` // function -> callee -> occurrences (of callees that are first in a pair)
 	// LoopExits: function -> number of ways it returns success (a nil error) out of the body of a loop
 	LoopExits map[string]int `json:"loop_exits"`
+	// Loops: function -> number of loops (blocks with a back edge)
+	Loops map[string]int `json:"loops"`
 }
 
 var orderGroups = groupsOf([][]string{
@@ -158,6 +160,16 @@ func pureLoopTest(h *ssa.BasicBlock) bool {
 	return true
 }
 
+func countLoops(g *ssa.Function) int {
+	n := 0
+	for _, b := range g.Blocks {
+		if isLoopHeader(b) {
+			n++
+		}
+	}
+	return n
+}
+
 func hasLoop(g *ssa.Function) bool {
 	for _, b := range g.Blocks {
 		if isLoopHeader(b) {
@@ -234,7 +246,12 @@ func successExitsFromLoops(g *ssa.Function) []*ssa.Return {
 		return nil
 	}
 	for _, r := range returnsOf(g) {
-		if len(r.Results) <= errIdx || !isNilConst(returnedValue(r, errIdx)) {
+		if len(r.Results) <= errIdx {
+			continue
+		}
+		// `return nil`, and equally `return err` where nothing says that err is set (the result of the
+		// step handed back as is: the first element decides for all)
+		if rv := returnedValue(r, errIdx); !isNilConst(rv) && !errMayBeNil(rv, r.Block(), 0) {
 			continue
 		}
 		fromLoop := earlyExit[r.Block()]
@@ -250,12 +267,13 @@ func genOrderReference(repo string) error {
 	if err != nil {
 		return err
 	}
-	ref := orderRef{Note: "per function of the reference tree: pairs of effectful calls of which the second is only reached after the first; generated by `bbcheck -gen-reference`, never written by a check", Pairs: map[string][]string{}, Counts: map[string]map[string]int{}, LoopExits: map[string]int{}}
+	ref := orderRef{Note: "per function of the reference tree: pairs of effectful calls of which the second is only reached after the first; generated by `bbcheck -gen-reference`, never written by a check", Pairs: map[string][]string{}, Counts: map[string]map[string]int{}, LoopExits: map[string]int{}, Loops: map[string]int{}}
 	for _, rel := range allOrderPkgs() {
 		for _, tf := range p.srcFuncs(rel) {
 			withAnon(tf, func(g *ssa.Function) {
 				if n := len(successExitsFromLoops(g)); n > 0 || hasLoop(g) {
 					ref.LoopExits[FuncName(g)] = n
+					ref.Loops[FuncName(g)] = countLoops(g)
 				}
 				if ps := orderPairs(g); len(ps) > 0 {
 					ref.Pairs[FuncName(g)] = ps
@@ -306,6 +324,22 @@ func runOrderDrift(c *Ctx, pkgs []string) {
 				fk := refKey(g)
 				if fk == "" {
 					return
+				}
+				// a loop whose body now always leaves (an unconditional return at its end) is no loop any
+				// more: only the first element is looked at.  Judged while no helper was extracted or inlined
+				// (then the loop may live elsewhere).
+				if nl, knownN := orderRefCache.Loops[fk]; knownN && countLoops(g) < nl {
+					if provR, _ := loadProvRef(); provR != nil {
+						if rs, ok := provR.Sigs[fk]; ok {
+							refDef := map[string]bool{}
+							for _, id := range provR.Defined {
+								refDef[id] = true
+							}
+							if gateOpen(rs, callSignature(g), refDef, definedCallees(c.Program)) {
+								c.Fail(fk, "loops-still-repeat", c.Pos(g.Pos()), fmt.Sprintf("the function has %d loop(s), %d on the reference tree, and no helper took one over: the body of a loop now always leaves it, so only the first element – the first partition, the first backend, the first chunk – is dealt with", countLoops(g), nl))
+							}
+						}
+					}
 				}
 				if n, knownL := orderRefCache.LoopExits[fk]; knownL {
 					if ex := successExitsFromLoops(g); len(ex) > n {
